@@ -44,6 +44,7 @@ const (
 	RejectUnless     = "rejunless"   // A=key V=value: return null unless bindings[A] equals V (a guard that looks at its candidate)
 	ThrowIf          = "throwif"     // A=key V=value: fail if bindings[A] equals V
 	Misuse           = "misuse"      // A = an ECMAScript statement that misuses a helper of the (extended) environment; modelled as a failure; the source is compiled for interpreter "ecmascript-ext"
+	ThrowVal         = "throwval"    // A = object | error | null | undefined | number | hostile-tostring | hostile-message : throw a value of that kind (js); native: an error
 	InPlace          = "inplace"     // native only, first op: work on the very map that was given (the bs.Extend idiom of the repository's own native actions) instead of a copy
 )
 
@@ -112,6 +113,23 @@ func (p *Prog) JS() string {
 			fmt.Fprintf(&b, "_.out(%s);\n", js(o.V))
 		case Throw:
 			b.WriteString("throw \"boom\";\n")
+		case ThrowVal:
+			switch o.A {
+			case "object":
+				b.WriteString("throw {code: 42, info: {a: [1, \"x\"]}};\n")
+			case "error":
+				b.WriteString("throw new Error(\"boom\");\n")
+			case "null":
+				b.WriteString("throw null;\n")
+			case "undefined":
+				b.WriteString("throw undefined;\n")
+			case "number":
+				b.WriteString("throw 7;\n")
+			case "hostile-tostring":
+				b.WriteString("throw {toString: function() { throw new Error(\"inner\"); }, valueOf: function() { throw new Error(\"inner2\"); }};\n")
+			default:
+				b.WriteString("throw {get message() { throw \"inner\"; }, get name() { throw \"inner\"; }};\n")
+			}
 		case RejectUnless:
 			fmt.Fprintf(&b, "if (JSON.stringify(bs[%s]) !== %s) { return null; }\n", js(o.A), js(js(o.V)))
 		case ThrowIf:
@@ -192,7 +210,7 @@ func (p *Prog) NativeAction() core.Action {
 				w = match.NewBindings()
 			case Emit:
 				exe.AddEmitted(o.V)
-			case Throw:
+			case Throw, ThrowVal:
 				return nil, errors.New("boom")
 			case RejectUnless:
 				if js(w[o.A]) != js(o.V) {
@@ -336,7 +354,7 @@ func (p *Prog) Model(bs map[string]interface{}) Result {
 			w = map[string]interface{}{}
 		case Emit:
 			out = append(out, clone(o.V))
-		case Throw, RetScalar, RetArray, Spin, RetGetter, Misuse:
+		case Throw, ThrowVal, RetScalar, RetArray, Spin, RetGetter, Misuse:
 			return Result{Err: true}
 		case RejectUnless:
 			if js(w[o.A]) != js(o.V) {
